@@ -923,3 +923,13 @@ M("C10-override-flag-masked-one-side", "C10", "src/cppparser/cppFunctionType.cxx
 M("C10-benign-override-flag-or-form", "C10", "src/cppparser/cppFunctionType.cxx",
   "  if (((_flags ^ other._flags) & ~(F_override | F_final)) != 0) {", "  if ((_flags | F_override | F_final) != (other._flags | F_override | F_final)) {",
   benign=True)
+
+M("C02-true-divide-mirror-fixed-kind", "C02", "src/interrogate/interfaceMakerPythonNative.cxx",
+  "            def._wrapper_type = slotted_def._wrapper_type;", "            def._wrapper_type = WT_binary_operator;",
+  expect="R02.5|write_module_class|def|wrapper-type-of-mirrored-slot")
+M("C02-benign-true-divide-mirror-conditional-kind", "C02", "src/interrogate/interfaceMakerPythonNative.cxx",
+  "            def._wrapper_type = slotted_def._wrapper_type;", "            def._wrapper_type = (key == \"nb_inplace_divide\") ? WT_inplace_binary_operator : WT_binary_operator;",
+  benign=True)
+M("C02-true-divide-mirror-names-swapped", "C02", "src/interrogate/interfaceMakerPythonNative.cxx",
+  "          if (key == \"nb_inplace_divide\") {\n            true_key = \"nb_inplace_true_divide\";\n          } else {\n            true_key = \"nb_true_divide\";", "          if (key == \"nb_inplace_divide\") {\n            true_key = \"nb_true_divide\";\n          } else {\n            true_key = \"nb_inplace_true_divide\";",
+  expect="R02.5|write_module_class|true-divide-mirror-names")
